@@ -58,3 +58,17 @@ def run(ctx, rep) -> None:
         v = sv[t['id']]['verdict']
         if v == 'FinalizerHeld' or (v.startswith('rejected') and "'ev': 'json'" in v):
             rep.violation(f'{t["id"]}: {v}', payload=t['spawning'])
+    # a timer whose function takes a while, next to stuck or obedient daemons with backoffs and timeouts of their own: the object is held while
+    # the function runs, and the function is never cancelled (TickMonitor.tla)
+    kscs = D.tick_scenarios(ctx.seed, 60 if ctx.quick else 1200)
+    with ProcessPoolExecutor(16) as ex:
+        ktraces = list(ex.map(D.run_scenario, kscs, chunksize=4))
+    kv = D.judge_ticks(ktraces, rep)
+    rep.evaluations += len(ktraces); rep.traces += len(ktraces)
+    for t in ktraces:
+        if any(e['ev'] == 'released' for e in t['events']):
+            rep.nontrivial([t['conf'], [{k: v for k, v in e.items() if k != 't'} for e in t['events'] if e['ev'].startswith('tick') or e['ev'] == 'released']])
+        if t['stall']:
+            rep.violation(f'{t["id"]}: the event loop stalled', payload=t)
+        elif kv[t['id']] != 'ok':
+            rep.violation(f'{t["id"]}: {kv[t["id"]]}', payload={k: v for k, v in t.items() if k != 'spawning'})
